@@ -19,6 +19,10 @@ type earlyFinding struct {
 	check *ast.CallExpr
 }
 
+// earlyChecksSeen counts the checks (calls whose failure returns an error) recognised in the functions' own statement
+// lists during the last run of the rule: zero would mean the matcher no longer recognises the idiom.
+var earlyChecksSeen int
+
 func (c *Ctx) earlySuccessFindings(f *Fn) []earlyFinding {
 	sig := f.Obj.Type().(*types.Signature)
 	if sig.Results().Len() == 0 || !isErrorLike(sig.Results().At(sig.Results().Len()-1).Type()) {
@@ -92,6 +96,7 @@ func (c *Ctx) earlySuccessFindings(f *Fn) []earlyFinding {
 		}
 		checks = append(checks, chk{i, call})
 	}
+	earlyChecksSeen += len(checks)
 	if len(checks) == 0 {
 		return nil
 	}
@@ -157,6 +162,7 @@ func (c *Ctx) ruleEarlySuccess(rule string) {
 		}
 	}
 	n := 0
+	earlyChecksSeen = 0
 	for _, f := range fns {
 		fs := c.earlySuccessFindings(f)
 		for i, fd := range fs {
@@ -164,8 +170,12 @@ func (c *Ctx) ruleEarlySuccess(rule string) {
 			r.Bad(rule, fmt.Sprintf("%s | return nil #%d before %s", f.Name(), i+1, exprString(fd.check.Fun)), "a directive for which this branch is taken is accepted without the check "+exprString(fd.check.Fun)+" that the function makes for all others: the fault that check finds is not reported for it", c.pos(fd.ret.Pos()))
 		}
 	}
+	if earlyChecksSeen < 10 {
+		r.Undecided(rule, "sites", fmt.Sprintf("only %d checks of the form `if err := K(..); err != nil { return error }` recognised in %d functions (27 on the pinned tree): the matcher no longer sees the idiom", earlyChecksSeen, len(fns)), "")
+		return
+	}
 	if n == 0 {
-		r.Ok(rule, "handlers", fmt.Sprintf("%d functions (handlers and what they call in package core): no success return in front of a check of the function's own list", len(fns)), "")
+		r.Ok(rule, "handlers", fmt.Sprintf("%d functions (handlers and what they call in package core) with %d checks in their own statement lists: no success return in front of one", len(fns), earlyChecksSeen), "")
 	}
 	r.Stats["early_success_functions"] = len(fns)
 }
